@@ -94,3 +94,36 @@ pub fn boxed64(len: usize, n: usize) -> Box<dyn SincInterpolator<f64>> {
 pub fn boxed32(len: usize, n: usize) -> Box<dyn SincInterpolator<f32>> {
     Box::new(Probe { len, n })
 }
+
+/// Window-sum kernel (all weights 1): the output depends on EVERY sample of the
+/// requested window, so stale or uncleared history is visible in the values
+/// (the centre-sample `Probe` above ignores the rest of the window unless STRICT).
+pub struct SumProbe {
+    pub len: usize,
+    pub n: usize,
+}
+impl SincInterpolator<f64> for SumProbe {
+    fn get_sinc_interpolated(&self, wave: &[f64], index: usize, subindex: usize) -> f64 {
+        if !(index.wrapping_add(self.len) < wave.len()) {
+            unsafe { BAD_WINDOW = true };
+            return 0.0;
+        }
+        if !(subindex < self.n) {
+            unsafe { BAD_SUBINDEX = true };
+            return 0.0;
+        }
+        let mut acc = 0.0f64;
+        let len = self.len;
+        crate::unroll32!(p, len, { acc += wave[index + p]; });
+        acc + (subindex as f64) / (self.n as f64)
+    }
+    fn len(&self) -> usize {
+        self.len
+    }
+    fn nbr_sincs(&self) -> usize {
+        self.n
+    }
+}
+pub fn boxed64_sum(len: usize, n: usize) -> Box<dyn SincInterpolator<f64>> {
+    Box::new(SumProbe { len, n })
+}
